@@ -13,6 +13,7 @@ import hashlib
 import importlib
 import json
 import os
+import random
 import subprocess
 import sys
 import time
@@ -92,6 +93,16 @@ def _jsonable(x):
 
 def run_case(prop, case, ctx):
     """Runs check_case; returns a Failure or None.  Harness errors raise."""
+    # the global PRNGs are part of the environment of a case: pin them so a
+    # case behaves the same inside Hypothesis (which seeds them with 0 for
+    # every example) and when replayed directly.
+    random.seed(0)
+    try:
+        import numpy
+
+        numpy.random.seed(0)
+    except ImportError:
+        pass
     try:
         prop.check_case(case, ctx)
     except Violation as v:
